@@ -183,12 +183,13 @@ void h_discover(void) {
     probe_t *pre_head = ST->see_list;
     parseFrame(RX, &g_cfgA);
     if (accept) {
-        V_ASSERT(g_nsend == 1 && g_hello_seen, "C03,C05: an accepted Discover is answered by exactly one Hello");
+        V_ASSERT(g_nsend == 1 && g_hello_seen, "C05: every Discover from the active mapper, or from anyone while none is active, is answered");
         V_ASSERT(ST->mapper_known == 1 && mac6_eq(ST->mapper_real.a, in.frame + F_RSRC), "C05: accepted Discover's sender is the active mapper");
     } else {
         V_ASSERT(g_nsend == 0, "C05: a Discover from another station gets no reply while a mapper is active");
         V_ASSERT(ST->mapper_known == 1 && mac6_eq(ST->mapper_real.a, in.st.mreal), "C05: a foreign Discover does not change the mapper");
     }
+    V_ASSERT(g_nsend <= 1, "C02,C03: at most one Hello per Discover");
     V_ASSERT(ST->see_list_count == pre_n, "C07: a Discover leaves recorded observations alone"); (void)pre_head;
     {
         struct snap sn; snapshot_list(ST, &sn);
